@@ -1464,6 +1464,11 @@ def einsum(*operands, **kwargs):
 
     if "dtype" in kwargs and kwargs["dtype"] is not None:
         operands = [o.astype(kwargs["dtype"]) for o in operands]
+    elif len(operands) > 1:
+        # like numpy.einsum, compute in the common type of the operands: the per-term reductions below
+        # keep each operand's own dtype, so a bool (or narrower) operand has to be promoted first
+        common = np.result_type(*(o.dtype for o in operands))
+        operands = [o if o.dtype == common else o.astype(common) for o in operands]
 
     if len(operands) == 1:
         return _einsum_single(lhs, rhs, operands[0])
